@@ -41,7 +41,10 @@ class ExtMixin(object):
                 except ep.Unsupported as e:
                     self.err(node, str(e))
             if f == "log" and len(args) == 2:
-                return Num(ep.log_(self.num(args[0], node)) / ep.log_(self.num(args[1], node)))
+                den = ep.log_(self.num(args[1], node))
+                if den.as_const() == 0:
+                    raise RaiseSignal(ExcV(ExtV("builtins.ZeroDivisionError"), [Const("float division by zero")]), node)
+                return Num(ep.log_(self.num(args[0], node)) / den)
             if f in ("floor", "ceil", "trunc") and len(args) == 1:
                 c = self.num(args[0], node).as_const()
                 if c is not None:
@@ -55,6 +58,17 @@ class ExtMixin(object):
                 return ("sympy_symbols", args[0])
             if f in ("sin", "cos", "tan", "tanh", "sinh", "cosh", "atan", "erf", "erfc", "fabs"):
                 return Num(ep.app("math." + f, [self.num(a, node) for a in args]))
+            if base[0] == "math" and f == "fsum" and len(args) == 1 and not kwargs:
+                seq = self.as_iterable(args[0], node)
+                if isinstance(seq, ListV) and not getattr(seq, "tail", None):
+                    tot = ep.const(0)
+                    for it in seq.items:
+                        tot = tot + self.num(it, node)
+                    return Num(tot, True)
+            if base[0] == "math" and callable(getattr(math, f, None)) and args and not kwargs \
+                    and all(isinstance(a, Num) for a in args):
+                # any other function of the math module: an uninterpreted function of its arguments, in order
+                return Num(ep.app("math." + f, [a.rf for a in args]), True)
         if short in ("logging.getLogger",) or short.startswith("logging."):
             return LoggerV()
         if name.endswith("Exception") or name.endswith("Error"):
@@ -315,6 +329,10 @@ class ExtMixin(object):
             return ListV(list(seen.values()), "set")
         if isinstance(v, DictV):
             return ListV([k for k, _ in v.items.values()], "set")
+        if isinstance(v, NTV):
+            return self.x_set([ListV(list(v.values), "tuple")], kwargs, node, env)
+        if type(v).__name__ == "IterV":
+            return self.x_set([self.as_iterable(v, node)], kwargs, node, env)
         self.err(node, "set(%r)" % (v,))
 
     def x_dict(self, args, kwargs, node, env):
@@ -560,12 +578,35 @@ class ExtMixin(object):
             return Const(isinstance(v, Num))
         if isinstance(c, ExtV) and c.name == "builtins.str":
             return Const(is_strlike(v))
+        if isinstance(c, ExtV) and c.name in ("collections.abc.Callable", "collections.Callable", "typing.Callable"):
+            return self.x_callable([v], {}, node, env)       # the ABC's subclass hook is 'has __call__'
         self.err(node, "isinstance(%r, %r)" % (v, c))
+
+    def ext_object(self, v, node):
+        """the library object an external dotted name stands for (standard library and the environment's packages)"""
+        import importlib
+        parts = v.name.split(".")
+        for i in range(len(parts), 0, -1):
+            try:
+                obj = importlib.import_module(".".join(parts[:i]))
+            except ImportError:
+                continue
+            try:
+                for a in parts[i:]:
+                    obj = getattr(obj, a)
+            except AttributeError:
+                break
+            return obj
+        self.err(node, "external object %s cannot be inspected" % v.name)
 
     def x_callable(self, args, kwargs, node, env):
         v = args[0]
         if isinstance(v, (FuncV, DerivV, ClassV, NTClassV)):
             return TRUE
+        if isinstance(v, ModV):
+            return FALSE
+        if isinstance(v, ExtV):
+            return Const(callable(self.ext_object(v, node)))
         if isinstance(v, PyObjV):
             return Const(hasattr(v.obj, "m___call__"))
         if isinstance(v, InstV) and v.label is None:
@@ -689,6 +730,12 @@ class ExtMixin(object):
         b.open_kwargs = dict(kwargs)
         return b
 
+    def x_os_path_join(self, args, kwargs, node, env):
+        import posixpath
+        if kwargs or not args or not all(isinstance(a, Const) and isinstance(a.v, str) for a in args):
+            self.err(node, "os.path.join of non-literal parts")
+        return Const(posixpath.join(*[a.v for a in args]))
+
     def x_io_StringIO(self, args, kwargs, node, env):
         return BufV("StringIO#%d" % next(self.fresh))
 
@@ -701,17 +748,58 @@ class ExtMixin(object):
             return NTClassV(name.v if isinstance(name, Const) else repr(name), [f.v for f in fields.items])
         self.err(node, "namedtuple with symbolic fields")
 
+    # -- module namespaces: vars(module), module.__dict__, globals()
+    def module_names(self, module):
+        """every name bound in the module: static bindings, public names of star imports, names stored through globals()"""
+        self.ensure_module_init(module)
+        names = set(module.bindings)
+        for t in module.star_imports:
+            tm = self.p.modules.get(t)
+            if tm is not None:
+                names |= set(n for n in tm.bindings if not n.startswith("_"))
+        names |= set(n for (m, n) in self.module_cache if m == module.name)
+        return sorted(names)
+
+    def module_store(self, module, idx, val, node):
+        if not (isinstance(idx, Const) and isinstance(idx.v, str)):
+            self.err(node, "module namespace store under a non-literal name")
+        if idx.v in module.bindings:
+            self.err(node, "the name %r is bound both by a statement of %s and through its namespace dictionary" % (idx.v, module.name))
+        self.module_cache[(module.name, idx.v)] = val
+
+    def module_dict(self, module, node):
+        d = DictV()
+        for nm in self.module_names(module):
+            v = self.module_global(module, nm, node)
+            if v is not None:
+                d.items[Const(nm).key()] = (Const(nm), v)
+        d.module = module
+        return d
+
+    def x_vars(self, args, kwargs, node, env):
+        v = args[0] if args else None
+        if isinstance(v, ModV) and v.module is not None:
+            return self.module_dict(v.module, node)
+        self.err(node, "vars(%r)" % (v,))
+
+    def x_globals(self, args, kwargs, node, env):
+        m = env.find_module()
+        if m is None or args:
+            self.err(node, "globals() outside a module of the package")
+        if m.name not in self.__dict__.get("_modules_initing", ()):
+            return self.module_dict(m, node)
+        # called while the module body runs: a dictionary whose stores bind module names (reads of it see those only)
+        d = DictV()
+        d.module = m
+        return d
+
     def x_inspect_getmembers(self, args, kwargs, node, env):
         """members of a repo module (sorted by name) satisfying a predicate that is evaluated abstractly;
         only module-level callables (instances with __call__, functions) are considered"""
         mod, pred = args[0], args[1]
         if not (isinstance(mod, ModV) and mod.module is not None):
             self.err(node, "inspect.getmembers of %r" % (mod,))
-        names = set(mod.module.bindings)
-        for t in mod.module.star_imports:
-            tm = self.p.modules.get(t)
-            if tm is not None:
-                names |= set(n for n in tm.bindings if not n.startswith("_"))
+        names = self.module_names(mod.module)
         out = []
         pname = pred.name if isinstance(pred, ExtV) else None
         for nm in sorted(names):
@@ -720,19 +808,12 @@ class ExtMixin(object):
             if v is None:
                 continue
             if pname == "inspect.isfunction":
-                ok = isinstance(v, FuncV) and v.fi.module is mod.module
+                ok = isinstance(v, FuncV)
             elif isinstance(pred, FuncV):
-                if pred.fi.name == "_iscallable":
-                    # not a class, callable, and flagged is_potential (the flag is evaluated from the source)
-                    if isinstance(v, ClassV) or not (isinstance(v, FuncV) or (isinstance(v, InstV) and v.ci.lookup("__call__"))):
-                        continue
-                    fl = self.hasattr(v, "is_potential")
-                    ok = fl is True and self.truth(self.getattr(v, "is_potential", node)) is True
-                else:
-                    if isinstance(v, (ModV, ExtV)):
-                        continue
-                    r = self.truth(self.call(pred, [v], {}, node, env))
-                    ok = r is True
+                r = self.truth(self.call(pred, [v], {}, node, env))
+                if not isinstance(r, bool):
+                    self.err(node, "member predicate undecided for %s.%s" % (mod.module.name, nm))
+                ok = r
             else:
                 self.err(node, "inspect.getmembers predicate %r" % (pred,))
             if ok:
@@ -768,6 +849,9 @@ class ExtMixin(object):
     x_funcsigs_signature = x_inspect_signature
 
     def x_inspect_isclass(self, args, kwargs, node, env):
+        if isinstance(args[0], ExtV):
+            import inspect as _inspect
+            return Const(_inspect.isclass(self.ext_object(args[0], node)))
         return Const(isinstance(args[0], (ClassV, LocalClassV, NTClassV)))
 
     def x_inspect_isfunction(self, args, kwargs, node, env):
@@ -1068,6 +1152,19 @@ class ExtMixin(object):
 
     def m_BufV_close(self, base, args, kwargs, node):
         return NONE
+
+    def m_BufV_read(self, base, args, kwargs, node):
+        # reading back a file of the run: only a workbook saved under this very name (openpyxl model) has known content
+        mode = getattr(base, "mode", None)
+        wb = self.__dict__.get("_saved_workbooks", {}).get(base.filename.key()) if getattr(base, "filename", None) is not None else None
+        if args or kwargs or wb is None or not (isinstance(mode, Const) and isinstance(mode.v, str) and mode.v.startswith("r")):
+            self.err(node, "read() of %r" % (base,))
+        if "b" not in mode.v:
+            raise RaiseSignal(ExcV(ExtV("builtins.UnicodeDecodeError"), [Const("a workbook is not text")]), node)
+        if getattr(base, "was_read", False):
+            return Const("")
+        base.was_read = True
+        return StrV(SFmt("s", Opaque(("saved workbook bytes",))))
 
     m_BufV_flush = m_BufV_close
     m_BufV___enter__ = lambda self, base, args, kwargs, node: base
